@@ -5,6 +5,7 @@
 #define C20_ORACLE_H
 
 #include "geom.h"
+#include "wrap.h"
 
 namespace c20 {
 using namespace vf;
